@@ -69,21 +69,58 @@ func faultPoints(t *testing.T, rep *ev.Report, shard, of int, only string) {
 	for _, k := range []int{1, 20} {
 		cases = append(cases, faults.Case{Kind: "abort-many", Proto: "h2", K: k, Val: 0})
 	}
+	// protocol upgrades (the connection ends hijacked, in the hands of the reverse proxy)
+	for k := 0; k < 3; k++ {
+		cases = append(cases, faults.Case{Kind: "h1-upgrade", Proto: "h1", K: k})
+	}
 	// rare but legal (or cleanly refusable) HTTP/2 sequences
 	for k := range faults.H2RareNames {
 		cases = append(cases, faults.Case{Kind: "h2-rare", Proto: "h2", K: k})
 	}
-	rep.Info["fault_point_cases_total"] = len(cases)
-	for i, cs := range cases {
+	// the same with "-timeout-tls-handshake 0s" (no handshake timeout at all) for the sessions that run to their end,
+	// a client that never completes the handshake, a plain-HTTP client and an upgrade
+	type pointCase struct {
+		faults.Case
+		noHandshakeTimeout bool
+	}
+	var all []pointCase
+	for _, cs := range cases {
+		all = append(all, pointCase{cs, false})
+	}
+	for _, cs := range cases {
+		last := cs.Kind == "abort-reset" && (cs.K == 0 || cs.K == 5)
+		for _, c2 := range cases {
+			if c2.Kind == "abort-reset" && c2.Proto == cs.Proto && c2.K > cs.K {
+				last = last && cs.K == 0 // (K == 0 and the largest K of each protocol)
+			}
+		}
+		isLast := cs.Kind == "abort-reset"
+		for _, c2 := range cases {
+			if c2.Kind == "abort-reset" && c2.Proto == cs.Proto && c2.K > cs.K {
+				isLast = false
+			}
+		}
+		if isLast || (cs.Kind == "abort-reset" && cs.K == 0) || (cs.Kind == "plain-http" && cs.K == 0) || cs.Kind == "h1-upgrade" || (cs.Kind == "h2-rare" && cs.K == 0) {
+			all = append(all, pointCase{cs, true})
+		}
+	}
+	rep.Info["fault_point_cases_total"] = len(all)
+	for i, pc := range all {
+		cs := pc.Case
+		name := cs.String()
+		opts := opts
+		if pc.noHandshakeTimeout {
+			name += "/no-handshake-timeout"
+			opts.HandshakeTimeout = 0
+		}
 		if only != "" {
-			if cs.String() != only {
+			if name != only {
 				continue
 			}
 		} else if i%of != shard {
 			continue
 		}
-		cs := cs
-		ev.Journal("fault point %s", cs)
+		ev.Journal("fault point %s", name)
 		res := faults.Run(t, cs, opts, helloH2, func(env *faults.Env) {
 			rep.Add("fault_point_cases", 1)
 			rep.Add("evaluations", 1)
@@ -117,16 +154,16 @@ func faultPoints(t *testing.T, rep *ev.Report, shard, of int, only string) {
 				}
 			}
 			if sig != "" {
-				rep.Violate(map[string]any{"kind": sig, "detail": "fault-point", "case_kind": cs.Kind, "proto": cs.Proto}, map[string]any{"fault_point_case": cs.String()},
-					"fault point %s: %d connection(s) were accepted and have ended, requests_total = %v (a connection that negotiated a protocol may only be counted under %q or as a failure)", cs, accepted, keys, want)
+				rep.Violate(map[string]any{"kind": sig, "detail": "fault-point", "case_kind": cs.Kind, "proto": cs.Proto}, map[string]any{"fault_point_case": name},
+					"fault point %s: %d connection(s) were accepted and have ended, requests_total = %v (a connection that negotiated a protocol may only be counted under %q or as a failure)", name, accepted, keys, want)
 			}
 		})
 		if res.Panic != nil {
 			rep.HarnessError("fault point %s: panic %v\n%s", cs, res.Panic, res.Stack)
 		}
 		if res.Hang != "" {
-			rep.Violate(map[string]any{"kind": "not-counted", "detail": "connection-never-ends", "case_kind": cs.Kind, "proto": cs.Proto}, map[string]any{"fault_point_case": cs.String()},
-				"fault point %s: the connection can never end, so it is never counted: %s", cs, res.Hang)
+			rep.Violate(map[string]any{"kind": "not-counted", "detail": "connection-never-ends", "case_kind": cs.Kind, "proto": cs.Proto}, map[string]any{"fault_point_case": name},
+				"fault point %s: the connection can never end, so it is never counted: %s", name, res.Hang)
 		}
 	}
 }
